@@ -838,6 +838,8 @@ class UnytDomain:
                 return it.fresh_str(label)
         if isinstance(v, (tuple, list)) and not v:
             return v
+        if isinstance(v, SLut):
+            return SLut.fresh(it, label)          # another registry's table
         raise Unsupported("an arbitrary earlier argument like %r" % (v,))
 
     def memo_result(self, it, fi, r, bound):
